@@ -76,7 +76,28 @@ AllowedSzx(M, client, Carrier(_)) ==
   IF client.some /\ client.v <= 6 /\ Carrier(client.v) + 32 <= M THEN { client.v } ELSE fits
 
 (* ---- upload buffer ----------------------------------------------------------- *)
-\* extending_splice(dst, off .. off+size, src, MaxReserve): None = rejected
+\* the public function extending_splice(dst, a .. b, src, maxres) for any range (0-based, b exclusive):
+\*   "err"    the range end lies more than maxres beyond dst; dst is left as it was
+\*   "panic"  a decreasing range (Vec::splice's own precondition; dst may already have been grown)
+\*   "ok"     dst is zero-filled up to b if shorter, then the range is replaced by src
+SpliceRange(dst, a, b, src, maxres) ==
+  IF b > Len(dst) /\ b - Len(dst) > maxres THEN [k |-> "err"]
+  ELSE IF a > b THEN [k |-> "panic"]
+  ELSE LET grown == IF b > Len(dst) THEN dst \o Zeros(b - Len(dst)) ELSE dst IN
+       [k |-> "ok", v |-> Clip(grown, 1, a) \o src \o Clip(grown, b + 1, Len(grown))]
+\* what any implementation of the function must satisfy (the upload buffer relies on exactly this)
+SpliceProps(dst, a, b, src, maxres) ==
+  LET r == SpliceRange(dst, a, b, src, maxres) IN
+  /\ (r.k = "err") = (b > Len(dst) + maxres)
+  /\ r.k = "ok" =>
+       /\ Len(r.v) = Max2(Len(dst), b) - (b - a) + Len(src)
+       /\ Len(r.v) <= Len(dst) + maxres + Len(src)                           \* growth bound (C11)
+       /\ \A i \in 1 .. Min2(a, Len(dst)) : r.v[i] = dst[i]                   \* data before the range is kept
+       /\ \A i \in (Len(dst) + 1) .. a : r.v[i] = 0                          \* a gap is zero filled
+       /\ \A i \in 1 .. Len(src) : r.v[a + i] = src[i]                       \* the new data, at its offset
+       /\ \A i \in (b + 1) .. Len(dst) : r.v[i - (b - a) + Len(src)] = dst[i]  \* data after the range is kept
+
+\* extending_splice(dst, off .. off+size, src, MaxReserve) as the handler calls it: None = rejected
 ExtendingSplice(dst, off, size, src) ==
   LET end == off + size IN
   IF end > Len(dst) /\ end - Len(dst) > MaxReserve THEN None
